@@ -205,9 +205,9 @@ def r12_2(ctx: Ctx):
                    "the counter does not move when no record is returned", node=p.end_node or rl.node)
     stop = [n_ for n_ in walk_no_nested(rl.node) if isinstance(n_, ast.If) and any(
         isinstance(x, ast.Raise) and "StopIteration" in norm(x) for x in n_.body)]
-    oks = bool(stop) and norm(stop[0].test).replace(" ", "") in (
-        "self._current_atom>=self.natoms", "self._current_atom>=self._natoms",
-        "self.natoms<=self._current_atom", "self._natoms<=self._current_atom")
+    from ..cfg import canon_test
+    oks = bool(stop) and canon_test(stop[0].test) in (ctext("self._current_atom >= self.natoms"),
+                                                       ctext("self._current_atom >= self._natoms"))
     ctx.ob("R12.2", rl, stop[0] if stop else "end of records", oks,
            "iteration stops exactly when the counter reaches the declared number of atoms",
            node=stop[0] if stop else rl.node)
